@@ -254,3 +254,32 @@ def instances(tier):
     for sp in (spec('curve', (2,), ((1,),), rational=False, dim=3), spec('curve', (2,), ((1,),), rational=True, dim=3), spec('curve', (1,), ((1,),), rational=False, dim=2)):
         out.append(inst('%s sweep' % spec_name(sp), h_sweep, timeout=900, sp=sp))
     return out
+
+
+# ------------------------------------------------------------------------------------------------
+# extra check: AST -> z3 (Int) over ALL sizes 1..64 of the flat index expressions in the current source
+
+def extra_checks(tier, seed):
+    from .. import astidx
+    from ..run import REPO
+    res, dt = astidx.run(REPO)
+    out = []
+    ok = [r for r in res if r['status'] == 'ok']
+    skipped = [r for r in res if r['status'] == 'skipped']
+    nq = sum(len(r.get('checks', [])) for r in res)
+    for r in res:
+        nm = 'index expression %s:%s L%d  %s[%s]' % (r['file'], r['func'], r['line'], r['array'], r['src'][:60])
+        if r['status'] == 'cex':
+            rp = r.get('replay', {})
+            if rp.get('reproduced'):
+                out.append({'name': nm, 'status': 'cex', 'base': 'index_' + r['label'], 'detail': '%s: %s' % (r['label'], rp.get('detail')), 'model': r['model']})
+            else:
+                out.append({'name': nm, 'status': 'inconclusive', 'detail': 'non-reproducing model: %s' % rp.get('detail')})
+        elif r['status'] == 'unknown':
+            out.append({'name': nm, 'status': 'inconclusive', 'detail': 'z3 unknown on %s' % r.get('checks')})
+    out.append({'name': 'flat index expressions for all sizes 1..64 (AST -> z3 Int)', 'status': 'ok' if len(ok) >= 30 else 'inconclusive',
+                'detail': '%d sites decided (in range, injective%s), %d skipped (%s), %d z3 queries, %.1fs' % (
+                    len(ok), ', convention on %d' % sum(1 for r in ok if r.get('convention')), len(skipped),
+                    '; '.join(sorted(set('%s:%s' % (r['file'], r['func']) for r in skipped))), nq, dt),
+                'counts': {'obligations': nq, 'discharged': sum(1 for r in res for c in r.get('checks', []) if c[1] == 'unsat')}})
+    return out
